@@ -28,7 +28,7 @@ var (
 	fKnown  = flag.String("sim.known", "/verif/known_findings.txt", "known findings file")
 	fDump   = flag.Bool("sim.dumplog", false, "print event log")
 	fMode   = flag.String("sim.mode", "search", "search|replay|logs")
-	fHang   = flag.Duration("sim.hang", 90*time.Second, "real-time watchdog per run")
+	fHang   = flag.Duration("sim.hang", 240*time.Second, "real-time watchdog per run")
 )
 
 var curT *testing.T
@@ -77,25 +77,27 @@ func engineFor(prop string) Engine {
 		return e4aEngine{}
 	case "C07", "C09", "C10":
 		return e5Engine{}
+	case "C16":
+		return e4bEngine{}
 	}
 	return nil
 }
 
 type workerOut struct {
-	Prop        string           `json:"prop"`
-	Tier        string           `json:"tier"`
-	Seed0       int64            `json:"seed0"`
-	Evaluations int              `json:"evaluations"`
-	Shapes      []string         `json:"shapes"`
-	Stats       map[string]int   `json:"stats"`
-	SimTimeS    float64          `json:"sim_time_s"`
-	WallS       float64          `json:"wall_s"`
-	Samples     []*Plan          `json:"samples"`
-	Violation   *Violation       `json:"violation,omitempty"`
-	ViolPlan    *Plan            `json:"viol_plan,omitempty"`
-	MinPlan     *Plan            `json:"min_plan,omitempty"`
-	Known       map[string]int   `json:"known"`
-	HarnessErr  string           `json:"harness_err,omitempty"`
+	Prop        string            `json:"prop"`
+	Tier        string            `json:"tier"`
+	Seed0       int64             `json:"seed0"`
+	Evaluations int               `json:"evaluations"`
+	Shapes      []string          `json:"shapes"`
+	Stats       map[string]int    `json:"stats"`
+	SimTimeS    float64           `json:"sim_time_s"`
+	WallS       float64           `json:"wall_s"`
+	Samples     []*Plan           `json:"samples"`
+	Violation   *Violation        `json:"violation,omitempty"`
+	ViolPlan    *Plan             `json:"viol_plan,omitempty"`
+	MinPlan     *Plan             `json:"min_plan,omitempty"`
+	Known       map[string]int    `json:"known"`
+	HarnessErr  string            `json:"harness_err,omitempty"`
 	LogHashes   map[string]string `json:"log_hashes,omitempty"`
 }
 
@@ -129,7 +131,9 @@ func TestSim(t *testing.T) {
 		}
 		seed := *fSeed0 + int64(i)**fStride
 		plan := eng.Gen(*fProp, seed, *fTier)
+		fmt.Fprintf(os.Stderr, "VERIF-SEED %d BEGIN\n", seed)
 		res := runWatched(eng, plan, out)
+		fmt.Fprintf(os.Stderr, "VERIF-SEED %d END\n", seed)
 		if res == nil {
 			return
 		}
@@ -191,7 +195,9 @@ func replayFile(t *testing.T, out *workerOut) {
 	}
 	plan := rf.Plan
 	eng := engineFor(plan.Prop)
+	fmt.Fprintf(os.Stderr, "VERIF-SEED %d BEGIN\n", plan.Seed)
 	res := eng.Run(plan)
+	fmt.Fprintf(os.Stderr, "VERIF-SEED %d END\n", plan.Seed)
 	out.Evaluations = 1
 	out.LogHashes["replay"] = res.LogHash
 	for _, l := range res.Log {
@@ -261,8 +267,18 @@ func runWatched(eng Engine, plan *Plan, out *workerOut) *Result {
 		buf := make([]byte, 1<<22)
 		n := runtime.Stack(buf, true)
 		site := hangSite(string(buf[:n]))
+		if site == "unknown" {
+			// nothing of the system is stuck on a lock: the run is merely slow (loaded machine): not a verdict
+			out.HarnessErr = fmt.Sprintf("seed %d: watchdog: run did not finish within %v, no goroutine of the system blocked on a lock", plan.Seed, *fHang)
+			fmt.Println("HARNESS-ERROR", out.HarnessErr)
+			if *fOut != "" {
+				b, _ := json.MarshalIndent(out, "", " ")
+				_ = os.WriteFile(*fOut, b, 0o644)
+			}
+			os.Exit(0)
+		}
 		if d := os.Getenv("VERIF_HANGDUMP"); d != "" {
-			_ = os.WriteFile(d, buf[:n], 0o644)
+			_ = os.WriteFile(fmt.Sprintf("%s.%d", d, plan.Seed), buf[:n], 0o644)
 		}
 		out.Violation = &Violation{Prop: plan.Prop, Clause: "hang", Class: "hang/" + site, Step: -1,
 			Detail: fmt.Sprintf("run did not finish within %v of real time; a goroutine of the system is blocked on a lock at %s", *fHang, site)}
